@@ -116,12 +116,15 @@ Proof. exact stop_only_on_conflict_thm. Qed.
 Print Assumptions C03_stop_only_on_conflict.
 
 (* the same seen from the second pass: it can only fail with that error, at the backlog entry of a plan entry
-   whose destination conflicts *)
+   whose destination conflicts.  (Since the repair of F38 the second pass runs the containment tests again and
+   may end with their error instead: that is excluded when no symbolic link can lie at a destination
+   ([dests_plain]), and it is not a FileExistsError.) *)
 Theorem C03_stop_error_names_plan_entry : forall c plan cwd s w1 cwd1 bl w2 cwd2 e,
   c_mode c = MName -> c_strategy c = Stop -> c_dry c = false -> c_fault c = None -> c_var c = fixed ->
   WF s -> selected_ok s plan ->
   first_pass c plan (init_world s (c_answers c)) cwd [] = (w1, cwd1, bl, None) ->
   second_pass c bl w1 cwd1 = (w2, cwd2, Some e) ->
+  dests_plain s plan \/ is_file_exists e = true ->
   e = ExDestExists /\
   exists f t, In (pf_dir f, pf_rel f, new_path f t) bl /\ In (f, RText t) plan /\ conflict s plan f t.
 Proof. exact stop_error_names_plan_entry_thm. Qed.
